@@ -439,7 +439,8 @@ func (c *Ctx) wellTyped(v *Term, t types.Type) *Term {
 	case *types.Slice:
 		z := c.idxConst(0)
 		l, cp, off := c.slLen(v), c.slCap(v), c.slOff(v)
-		return And(c.cmp(token.LEQ, z, l, true), c.cmp(token.LEQ, l, cp, true), c.cmp(token.LEQ, z, off, true),
+		return And(c.typeRange(cp, types.Typ[types.Int]), c.typeRange(off, types.Typ[types.Int]),
+			c.cmp(token.LEQ, z, l, true), c.cmp(token.LEQ, l, cp, true), c.cmp(token.LEQ, z, off, true),
 			Implies(Eq(c.slBase(v), IntLit(0)), And(Eq(l, z), Eq(cp, z))), mk(">=", BoolSort, c.slBase(v), IntLit(0)))
 	case *types.Pointer, *types.Map, *types.Chan:
 		return mk(">=", BoolSort, v, IntLit(0))
